@@ -571,7 +571,9 @@ fn main() {
                             if !d.deep.is_empty() || !d.shallow.is_empty() {
                                 let mut all = d.deep.clone();
                                 all.extend(d.shallow.clone());
-                                findings.push(Finding { prop: "C09".into(), kind: "other_security_changes_figures".into(), case: case_no,
+                                // only the split of a disposal's gain over its legs differs: the line-adjacency defect D14
+                                let kind = if d.deep.is_empty() { "leg_gain_apportionment" } else { "other_security_changes_figures" };
+                                findings.push(Finding { prop: "C09".into(), kind: kind.into(), case: case_no,
                                     detail: format!("{sec}: figures in the combined ledger differ from those of its transactions alone: {}", all.join("; ")),
                                     input: to_dsl(&tall), data: json!({"diffs": all}) });
                             }
